@@ -156,6 +156,43 @@ Proof.
     + rewrite N.eqb_sym, E. cbn [orb]. apply IH; auto.
 Qed.
 
+(* a task of the new list that is running (and not brand new) was running in the old list *)
+Definition runs_le (n : N) (old new : list task) : Prop :=
+  forall t', In t' new -> t_closing t' = None -> t_id t' < n ->
+    exists t, In t old /\ t_id t = t_id t' /\ t_closing t = None.
+
+Lemma runs_refl n l : runs_le n l l.
+Proof. intros t H C _. eauto. Qed.
+
+Lemma runs_sub n old new : (forall t, In t new -> In t old) -> runs_le n old new.
+Proof. intros H t Ht C _. eauto. Qed.
+
+Lemma runs_trans n l1 l2 l3 : runs_le n l1 l2 -> runs_le n l2 l3 -> runs_le n l1 l3.
+Proof.
+  intros A B t3 H3 C3 L3. destruct (B t3 H3 C3 L3) as (t2 & H2 & E2 & C2).
+  destruct (A t2 H2 C2 ltac:(rewrite E2; exact L3)) as (t1 & H1 & E1 & C1). exists t1. repeat split; auto. congruence.
+Qed.
+
+Lemma runs_map n k f l :
+  (forall t, t_id (f t) = t_id t /\ (t_closing (f t) = None -> t_closing t = None)) -> runs_le n l (map_task k f l).
+Proof.
+  intros Hf t' Ht' C _. unfold map_task in Ht'. apply in_map_iff in Ht'. destruct Ht' as (t0 & E0 & Ht0).
+  exists t0. destruct (Hf t0) as [A B]. destruct (t_id t0 =? k); subst t'; auto.
+Qed.
+
+Lemma runs_running s s1 k :
+  NoDup (map t_id (tasks s)) -> runs_le (ntask s) (tasks s) (tasks s1) -> k < ntask s ->
+  running s1 k = true -> running s k = true.
+Proof.
+  intros ND R Lk. unfold running. destruct (find_task k (tasks s1)) as [t1|] eqn:F1; [|discriminate].
+  destruct (t_closing t1) eqn:C1; [discriminate|]. intros _.
+  destruct (find_task_some _ _ _ F1) as [I1 Id1].
+  destruct (R t1 I1 C1 ltac:(rewrite Id1; exact Lk)) as (t & It & E & C).
+  destruct (find_task_in _ _ It) as (t' & F'). rewrite E, Id1 in F'. rewrite F'.
+  destruct (find_task_some _ _ _ F') as [I' Id'].
+  assert (t' = t) by (eapply nodup_id_eq; eauto; congruence). subst t'. now rewrite C.
+Qed.
+
 (* the state after a handler that only emits Closed reports for p *)
 Record rshape (s : st) (p : peer) (s1 : st) (ev : list uev) : Prop := mkR {
   r_ev : Forall (is_report p) ev;
@@ -165,7 +202,8 @@ Record rshape (s : st) (p : peer) (s1 : st) (ev : list uev) : Prop := mkR {
   r_t : TPart s1;
   r_cases :
     (ps s1 p = ps s p /\ forall k, ps s p = Some (Open k) -> existsb (cur k) ev = false) \/
-    (exists k, ps s p = Some (Open k) /\ is_open (ps s1 p) = false /\ running s1 k = false /\ In (UClosed p) ev)
+    (exists k, ps s p = Some (Open k) /\ is_open (ps s1 p) = false /\ running s1 k = false /\ In (UClosed p) ev);
+  r_run : runs_le (ntask s) (tasks s) (tasks s1) /\ ntask s1 = ntask s
 }.
 
 Lemma TPart_handle s p h k : TPart s -> TPart (set_hsink (set_hopen s p h) p k).
@@ -173,7 +211,7 @@ Proof. intros T. eapply TPart_fields; eauto. Qed.
 
 Lemma good_of_rshape s p s1 ev : HInv s -> rshape s p s1 ev -> good s s1 ev.
 Proof.
-  intros [H1 H2 HT] [REv RHo RHs ROt RT RC] s2 dr ks D.
+  intros [H1 H2 HT] [REv RHo RHs ROt RT RC _] s2 dr ks D.
   destruct (hopen s p) eqn:HO.
   - (* the user sees the stream open: the protocol has it Open k and the handle holds sink k *)
     pose proof (H1 p) as G. rewrite HO in G. destruct (ps s p) as [[| | | | | |k]|] eqn:Hp; try discriminate G.
@@ -294,15 +332,29 @@ Proof.
   destruct (find_task_some _ _ _ F) as [I1 I2]. eapply h_peer; eauto.
 Qed.
 
+Lemma signal_running s k s' ev :
+  signal s k = (s', ev) -> forall t', In t' (tasks s') -> t_closing t' = None ->
+  exists t, In t (tasks s) /\ t_id t = t_id t' /\ t_closing t = None.
+Proof.
+  unfold signal. destruct (find_task k (tasks s)) as [t|] eqn:F.
+  - destruct (t_closing t) eqn:C.
+    + intros E; injection E as <- _. eauto.
+    + destruct (t_gated t); intros E; injection E as <- _; setters; intros t' Ht' C'.
+      * unfold map_task in Ht'. apply in_map_iff in Ht'. destruct Ht' as (t0 & E0 & Ht0).
+        destruct (t_id t0 =? k); subst t'; [discriminate C'|eauto].
+      * apply in_remove in Ht'. exists t'. tauto.
+  - intros E; injection E as <- _. eauto.
+Qed.
+
 (* the protocol leaves Open k for peer p (connection closed, user close): s0 is the state handed to `signal`
    (same tasks as s), s1 the final state *)
 Lemma rshape_leave s p k s0 sg se s1 :
-  HInv s -> ps s p = Some (Open k) -> tasks s0 = tasks s -> signal s0 k = (sg, se) ->
+  TPart s -> ps s p = Some (Open k) -> tasks s0 = tasks s -> signal s0 k = (sg, se) ->
   tasks s1 = tasks sg -> hopen s1 = hopen s -> hsink s1 = hsink s -> ntask s1 = ntask s ->
   (forall q, q <> p -> ps s1 q = ps s q) -> is_open (ps s1 p) = false ->
   rshape s p s1 (UClosed p :: se).
 Proof.
-  intros [H1 H2 HT] Hp T0 Sg T1 HO HS N0 FR NO.
+  intros HT Hp T0 Sg T1 HO HS N0 FR NO.
   destruct (signal_facts _ _ _ _ Sg) as (_ & _ & _ & _ & NR & EV & TD & ND). rewrite T0 in *.
   assert (PO : forall q k', ps s1 q = Some (Open k') -> ps s q = Some (Open k')).
   { intros q k' Hq. destruct (N.eq_dec q p) as [->|Hne]; [rewrite Hq in NO; discriminate NO|rewrite FR in Hq; auto]. }
@@ -317,6 +369,9 @@ Proof.
   - right. exists k. repeat split; auto.
     + unfold running in *. rewrite T1. exact NR.
     + now left.
+  - split; auto. rewrite T1. intros t' Ht' C _. destruct (TD t' Ht') as (t & Ht & E1 & E2 & _). exists t. repeat split; auto.
+    destruct (signal_running _ _ _ _ Sg t' Ht' C) as (t0 & I0 & X0 & C0). rewrite T0 in I0.
+    assert (t0 = t) by (eapply nodup_id_eq; [apply (h_nodup s HT)| | |]; eauto; congruence). subst t0. exact C0.
 Qed.
 
 Lemma task_closed_not_running s k : task_closed s k = true -> running s k = false.
@@ -326,10 +381,11 @@ Qed.
 
 (* ---- only the task list changes, nothing is reported (Gate, a gated remote close) ---- *)
 Lemma rshape_map s p k f :
-  HInv s -> (forall t, t_id (f t) = t_id t /\ t_peer (f t) = t_peer t /\ (t_closing (f t) = Some false -> t_closing t = Some false)) ->
+  TPart s -> (forall t, t_id (f t) = t_id t /\ t_peer (f t) = t_peer t /\ (t_closing (f t) = Some false -> t_closing t = Some false)) ->
+  (forall t, t_closing (f t) = None -> t_closing t = None) ->
   rshape s p (set_tasks s (map_task k f (tasks s))) [].
 Proof.
-  intros [H1 H2 HT] Hf. constructor.
+  intros HT Hf Hc. constructor.
   - constructor.
   - reflexivity.
   - reflexivity.
@@ -339,25 +395,28 @@ Proof.
       exists t0. destruct (Hf t0) as (A & B & C). destruct (t_id t0 =? k); subst t'; repeat split; auto.
     + rewrite map_task_ids; [apply (h_nodup s HT)|]. intros t. apply Hf.
   - left. split; auto.
+  - split; [|reflexivity]. setters. apply runs_map. intros t. destruct (Hf t) as (A & _ & _). split; auto.
 Qed.
 
 (* ---- the newest task of p finishes closing by itself (ungated remote close) ---- *)
 Lemma rshape_die s p k :
-  HInv s ->
+  TPart s ->
   rshape s p (on_shutdown (set_tasks s (remove_task k (tasks s))) p)
              (UClosedT p k :: shut_ev (set_tasks s (remove_task k (tasks s))) p).
 Proof.
-  intros [H1 H2 HT]. set (s1 := set_tasks s (remove_task k (tasks s))).
+  intros HT. set (s1 := set_tasks s (remove_task k (tasks s))).
   assert (TD : TPart s1).
   { eapply TPart_der; eauto; subst s1; setters; auto.
     - intros t' Ht'. apply in_remove in Ht'. exists t'. repeat split; tauto.
     - apply nodup_remove, (h_nodup s HT). }
   assert (P1 : ps s1 = ps s) by reflexivity.
   assert (F1 : hopen s1 = hopen s /\ hsink s1 = hsink s) by (split; reflexivity).
+  assert (RU : runs_le (ntask s) (tasks s) (tasks s1) /\ ntask s1 = ntask s).
+  { split; auto. apply runs_sub. subst s1. setters. intros t Ht. apply in_remove in Ht. tauto. }
   unfold on_shutdown, shut_ev. rewrite P1.
   destruct (ps s p) as [[| | | | | |k0]|] eqn:Hp.
   1-6,8: (constructor; [repeat constructor|apply F1|apply F1|intros q Hq; now rewrite P1|exact TD|
-                        left; rewrite P1; split; auto; intros k0 X; rewrite Hp in X; discriminate X]).
+                        left; rewrite P1; split; auto; intros k0 X; rewrite Hp in X; discriminate X|exact RU]).
   destruct (task_closed s1 k0) eqn:TC.
   - constructor.
     + repeat constructor.
@@ -371,6 +430,7 @@ Proof.
     + right. exists k0. setters. rewrite upd_same. repeat split; auto.
       * apply task_closed_not_running in TC. unfold running in *. setters. exact TC.
       * right. now left.
+    + exact RU.
   - constructor.
     + repeat constructor.
     + apply F1.
@@ -380,6 +440,7 @@ Proof.
     + left. rewrite P1. split; auto. intros k1 X. rewrite Hp in X. injection X as <-. cbn. rewrite orb_false_r.
       destruct (k =? k0) eqn:E; auto. apply N.eqb_eq in E. subst k0.
       unfold task_closed in TC. subst s1. setters. rewrite find_task_remove in TC. discriminate TC.
+    + exact RU.
 Qed.
 
 (* ---- Release: the closing tasks of p finish ---- *)
@@ -427,10 +488,10 @@ Lemma existsb_false {A} (f : A -> bool) l : (forall x, In x l -> f x = false) ->
 Proof. induction l as [|a l IH]; cbn; auto. intros H. rewrite (H a), IH; auto. Qed.
 
 Lemma rshape_release s p older l' ev0 n :
-  HInv s -> finish_tasks p (ungate s p older (tasks s)) = (l', ev0, n) ->
+  TPart s -> finish_tasks p (ungate s p older (tasks s)) = (l', ev0, n) ->
   rshape s p (run_shutdowns (set_tasks s l') p n) (ev0 ++ (if n =? 0 then [] else shut_ev (set_tasks s l') p)).
 Proof.
-  intros [H1 H2 HT] F. destruct (finish_facts _ _ _ _ _ F) as (A & B & C).
+  intros HT F. destruct (finish_facts _ _ _ _ _ F) as (A & B & C).
   set (s1 := set_tasks s l').
   assert (NDl : NoDup (map t_id (ungate s p older (tasks s)))) by (rewrite ungate_ids; apply (h_nodup s HT)).
   assert (TD : TPart s1).
@@ -455,6 +516,9 @@ Proof.
       destruct (find_task_some _ _ _ FT) as [K1 K2]. destruct (B t' K1) as [K3 K4].
       assert (t' = t) by (eapply nodup_id_eq; eauto; congruence). subst t'. congruence.
     - apply (h_sigd s HT t0 J0); [congruence|]. rewrite <- E2, Pt, <- E1, E. exact Hp. }
+  assert (RU : runs_le (ntask s) (tasks s) (tasks s1) /\ ntask s1 = ntask s).
+  { split; auto. subst s1. setters. intros t' Ht' C' _. destruct (B t' Ht') as [Hl _].
+    destruct (ungate_in _ _ _ _ _ Hl) as (t0 & I0 & E1 & E2 & E3). exists t0. repeat split; auto. congruence. }
   unfold run_shutdowns. destruct (n =? 0) eqn:En.
   - apply N.eqb_eq in En. rewrite app_nil_r. apply mkR.
     + exact REv0.
@@ -463,9 +527,10 @@ Proof.
     + intros q Hq. now rewrite P1.
     + exact TD.
     + left. rewrite P1. split; auto.
+    + exact RU.
   - unfold on_shutdown, shut_ev. rewrite P1. destruct (ps s p) as [[| | | | | |k0]|] eqn:Hp.
     1-6,8: (rewrite app_nil_r; constructor; [exact REv0|apply F1|apply F1|intros q Hq; now rewrite P1|exact TD|
-                left; rewrite P1; split; auto; intros k0 X; rewrite Hp in X; discriminate X]).
+                left; rewrite P1; split; auto; intros k0 X; rewrite Hp in X; discriminate X|exact RU]).
     destruct (task_closed s1 k0) eqn:TC.
     + constructor.
       * apply Forall_app. split; [exact REv0|repeat constructor].
@@ -480,6 +545,7 @@ Proof.
       * right. exists k0. setters. rewrite upd_same. repeat split; auto.
         -- apply task_closed_not_running in TC. unfold running in *. setters. exact TC.
         -- apply in_or_app. right. now left.
+      * exact RU.
     + rewrite app_nil_r. apply mkR.
       * exact REv0.
       * apply F1.
@@ -487,6 +553,7 @@ Proof.
       * intros q Hq. now rewrite P1.
       * exact TD.
       * left. rewrite P1. split; auto. intros k1 X. rewrite Hp in X. injection X as <-. apply NoCur; auto.
+      * exact RU.
 Qed.
 
 (* ------------------------------------------------------------------ the shape of every main handler *)
@@ -501,13 +568,16 @@ Proof. destruct r as [[[s1 ev] cl]|]; intros; constructor; auto. Qed.
 
 Lemma rshape_frame s s0 p s1 ev : same_core s s0 -> hsink s0 = hsink s -> rshape s0 p s1 ev -> rshape s p s1 ev.
 Proof.
-  intros (P & T & L & N0 & HO) HS [A B C D E F]. constructor; auto; try congruence.
+  intros (P & T & L & N0 & HO) HS [A B C D E F G]. constructor; auto; try congruence.
   - intros q Hq. rewrite D by auto. now rewrite P.
   - rewrite P in F. exact F.
 Qed.
 
 Lemma HInv_frame s s0 : same_core s s0 -> hsink s0 = hsink s -> HInv s -> HInv s0.
 Proof. intros (P & T & L & N0 & HO) HS HI. eapply HInv_fields; eauto. Qed.
+
+Lemma TPart_frame s s0 : same_core s s0 -> TPart s -> TPart s0.
+Proof. intros (P & T & L & N0 & HO) HT. eapply TPart_fields; eauto. Qed.
 
 Lemma mshape_frame s s0 r : same_core s s0 -> hsink s0 = hsink s -> mshape s0 r -> mshape s r.
 Proof.
@@ -518,7 +588,7 @@ Proof.
   - eapply ms_rep. eapply rshape_frame; eauto.
 Qed.
 
-Lemma mshape_on_closed s p : HInv s -> mshape s (on_closed s p).
+Lemma mshape_on_closed s p : TPart s -> mshape s (on_closed s p).
 Proof.
   intros HI. unfold on_closed. setters.
   destruct (ps s p) as [x|] eqn:Hp; [|constructor].
@@ -535,7 +605,7 @@ Proof.
     + destruct (signal_facts _ _ _ _ Sg) as (A & _). rewrite A. setters. now rewrite upd_same.
 Qed.
 
-Lemma mshape_on_close s p : HInv s -> mshape s (on_close s p).
+Lemma mshape_on_close s p : TPart s -> mshape s (on_close s p).
 Proof.
   intros HI. unfold on_close.
   destruct (ps s p) as [x|] eqn:Hp; [|apply ms_quiet; quiet_tac].
@@ -593,18 +663,18 @@ Proof.
   - mfinish_tac Hp.
 Qed.
 
-Lemma mshape_task_die s p g : HInv s -> mshape s (task_die_op s p g).
+Lemma mshape_task_die s p g : TPart s -> mshape s (task_die_op s p g).
 Proof.
   intros HI. unfold task_die_op.
   destruct (lastt s p) as [k|] eqn:Lk; [|apply ms_quiet; quiet_tac].
   destruct (find_task k (tasks s)) as [t|] eqn:F; [|apply ms_quiet; quiet_tac].
   destruct (t_closing t); [apply ms_quiet; quiet_tac|].
   destruct (g || t_gated t).
-  - apply (ms_rep s p). apply rshape_map; auto. intros t0. cbn. repeat split; auto. discriminate.
+  - apply (ms_rep s p). apply rshape_map; auto; intros t0; cbn; [repeat split; auto|]; discriminate.
   - apply (ms_rep s p). apply rshape_die. exact HI.
 Qed.
 
-Lemma main_mshape c s o : HInv s -> mshape s (main_handler c s o).
+Lemma main_mshape c s o : TPart s -> mshape s (main_handler c s o).
 Proof.
   intros HI.
   destruct o as [p|p|p|p|p|p|p b|p b|p a|p|p|p|p|p g|p older|p|p|p|p g|p|p m|p m|p m|p m]; cbn [main_handler].
@@ -612,7 +682,7 @@ Proof.
     apply ms_of_quiet. eapply quiet_frame; [|apply quiet_on_established]. repeat split.
   - destruct (conn s p); [|apply ms_quiet; quiet_tac].
     apply (mshape_frame s (set_spend (set_conn s p false) (drop_peer p (spend s)))); [repeat split|reflexivity|].
-    apply mshape_on_closed. eapply HInv_frame; [| |exact HI]; [repeat split|reflexivity].
+    apply mshape_on_closed. eapply TPart_frame; [|exact HI]. repeat split.
   - destruct (conn s p); apply ms_of_quiet; [apply quiet_on_sub_in|quiet_tac].
   - destruct (conn s p); [|apply ms_quiet; quiet_tac].
     destruct (first_req p (spend s)); [|apply ms_quiet; quiet_tac].
@@ -650,7 +720,7 @@ Qed.
 
 Lemma main_good c s o s1 ev cl : HInv s -> main_handler c s o = Some (s1, ev, cl) -> good s s1 ev.
 Proof.
-  intros HI M. pose proof (main_mshape c s o HI) as Sh. pose proof (hsink_main _ _ _ _ _ _ M) as HS.
+  intros HI M. pose proof (main_mshape c s o (h_t s HI)) as Sh. pose proof (hsink_main _ _ _ _ _ _ M) as HS.
   rewrite M in Sh. inversion Sh; subst.
   - eapply good_of_quiet; eauto.
   - eapply good_of_opens; eauto.
